@@ -463,7 +463,7 @@ pub fn generate(interface_args: &args::Interface) -> GeneratorResult<TokenStream
         let resolve_obj = quote! {
             self.#method_name(#(#use_params),*)
                 .await
-                .map_err(|err| ::std::convert::Into::<#crate_name::Error>::into(err).into_server_error(ctx.item.pos))?
+                .map_err(|err| ctx.set_error_path(::std::convert::Into::<#crate_name::Error>::into(err).into_server_error(ctx.item.pos)))?
         };
 
         resolvers.push(quote! {
